@@ -99,6 +99,11 @@ def parse_template(path):
                 nodes.append(('note', d.split(None, 1)[1]))
             elif cur is None:
                 raise TemplateError('%s:%d directive outside extract: %s' % (path, ln, d))
+            elif d.startswith('sigfile'):
+                # shared contract text: proved in one unit, assumed (stub) in its callers' units
+                _, ret, rel = d.split()
+                with open(os.path.join(VERIF, rel)) as sf:
+                    cur.sig = (ret, sf.read().rstrip('\n'))
             elif d.startswith('sig'):
                 ret = d.split()[1] if len(d.split()) > 1 else None
                 block = []
@@ -323,7 +328,7 @@ def _tail_start(src, bo, bc, what):
     return start
 
 
-def render_extract(ex, mode=None, canary=None):
+def render_extract(ex, mode=None, canary=None, lenient=False):
     """Return (text, info).  mode: None | 'twin'.  canary: name of canary to apply."""
     src = load_source(ex.path)
     within = None
@@ -354,9 +359,13 @@ def render_extract(ex, mode=None, canary=None):
     }
     text = strip_attrs(raw)
     # rewrites (declared, literal)
+    info['dropped'] = []
     for allf, rule, frm, to in ex.replaces:
         n = text.count(frm)
         if n == 0 or (n != 1 and not allf):
+            if lenient:
+                info['dropped'].append('rewrite %s %r' % (rule, frm[:60]))
+                continue
             raise LostAnchor('%s: rewrite %s pattern occurs %d times: %r' % (ex.name, rule, n, frm))
         text = text.replace(frm, to)
         info['rewrites'].append({'rule': rule, 'from': frm, 'to': to, 'count': n})
@@ -412,10 +421,14 @@ def render_extract(ex, mode=None, canary=None):
         lp = _loops(s2, bo + 1, bc)
         for k, ltext in ex.loops.items():
             if k >= len(lp):
+                if lenient:
+                    info['dropped'].append('loop %d' % k)
+                    continue
                 raise LostAnchor('%s: loop %d not found (have %d)' % (ex.name, k, len(lp)))
             inserts.append((lp[k], lp[k], '\n' + ltext + '\n'))
             info['spliced'].append('loop %d' % k)
     for where, nth, lit, itext, how in ex.inserts:
+      try:
         if how == 'lit':
             pos = _find_nth(text, lit, nth, ex.name)
             if not (bo < pos < bc):
@@ -428,6 +441,10 @@ def render_extract(ex, mode=None, canary=None):
             p = a if where == 'before' else b
         inserts.append((p, p, '\n' + itext + '\n'))
         info['spliced'].append('%s %s %r' % (where, how, lit))
+      except LostAnchor:
+        if not lenient:
+            raise
+        info['dropped'].append('%s %s %r' % (where, how, lit))
     # twin rename
     if mode == 'twin':
         nm_end = m.end()
@@ -448,7 +465,7 @@ def render_extract(ex, mode=None, canary=None):
     return '\n'.join(ex.attrs + [out]), info
 
 
-def generate(unit, mode=None, canary=None):
+def generate(unit, mode=None, canary=None, lenient=False):
     """Render units/<unit>.rs.  Returns dict(text, regions, items, notes, canaries, has_requires)."""
     gen_py = os.path.join(VERIF, 'units', unit + '.py')
     if os.path.exists(gen_py):
@@ -485,7 +502,7 @@ def generate(unit, mode=None, canary=None):
                 regions.append((first, len(out_lines), 'include', val))
             else:
                 ex = val
-                text, info = render_extract(ex, None, canary)
+                text, info = render_extract(ex, None, canary, lenient)
                 qual = (ex.impl.split()[-1] + '::' if ex.impl else '') + ex.name
                 emit(text, 'extract', qual)
                 items.append(info)
